@@ -23,7 +23,8 @@ fn gen_adjust(rng: &mut Rng) -> (u128, Price, Option<Decimal>) {
     let s = 10u128.pow(m as u32);
     let vref: u32 = match rng.below(6) { 0 => rng.uint(32) as u32, 1 => u32::MAX - rng.below(100_000) as u32, 2 => rng.range(1, 50) as u32, _ => rng.range(1000, 400_000_000) as u32 };
     let ratio: u32 = match rng.below(8) { 0 => 1, 1 => u32::MAX, 2 => rng.range(100_000_000, 400_000_000) as u32, 3 => rng.uint(32) as u32, _ => rng.range(1000, 5_000_000) as u32 };
-    let factor: u128 = if rng.chance(1, 20) { rng.uint(128) } else { ratio as u128 * 1_000_000_000_000 };
+    let narrow_factor = rng.chance(1, 8);
+    let factor: u128 = if narrow_factor { rng.range(1, 50) as u128 * 1_000_000_000_000 } else if rng.chance(1, 20) { rng.uint(128) } else { ratio as u128 * 1_000_000_000_000 };
     let with_ref = rng.chance(3, 4);
     let mref: u8 = if with_ref && rng.chance(1, 6) { rng.below(21) as u8 } else { m };
     let refu = vref as u128 * 10u128.pow(mref as u32);
@@ -45,7 +46,17 @@ fn gen_adjust(rng: &mut Rng) -> (u128, Price, Option<Decimal>) {
         }
     };
     let (a, b) = (side(rng), side(rng));
-    let (mn, mx) = if rng.chance(9, 10) { (a.min(b), a.max(b)) } else { (a, b) };
+    let (mut mn, mut mx) = if rng.chance(9, 10) { (a.min(b), a.max(b)) } else { (a, b) };
+    let mut with_ref = with_ref;
+    if rng.chance(1, 8) {
+        // both sides clamped, deviation below half a tick, reference (mid) off the tick grid:
+        // the clamped max = floor and the clamped min = ceil cross over
+        let lo_v = rng.range(1000, 4_000_000_000) as u32;
+        let gap = 2 * rng.range(1, 50) as u32 + 1; // odd gap -> mid = x.5 ticks
+        mn = lo_v;
+        mx = lo_v.saturating_add(gap);
+        with_ref = false;
+    }
     let mmin: u8 = if rng.chance(1, 12) { rng.below(24) as u8 } else { m };
     let mmax: u8 = if rng.chance(1, 40) { rng.range(21, 60) as u8 } else { m };
     let price = Price { min: Decimal { value: mn, decimal_multiplier: mmin }, max: Decimal { value: mx, decimal_multiplier: mmax } };
@@ -87,6 +98,38 @@ fn pipe_case(allow: bool, ratio: u32, td: u8, p: u8, vref: u32, mn: u128, mx: u1
     emit(&tag, &format!("Pipe {} {fo} {} (Some {}) {rs}", b(allow), pz(&price), dz(&refd)));
 }
 
+/// adjust (if allowed and a factor is configured) -> validate_one -> from_price, composed as in parse_from_feed_account.
+fn hook_pipeline(allow: bool, ratio: u32, price: Price, r: Option<Decimal>, kind: &str) {
+    let tspec = TokenSpec { allow_adjust: allow, ratio, ..Default::default() };
+    let tc = token_config(&tspec, gmsol_verif_harness::g9rt::key(200));
+    let now = 1_700_000_000i64;
+    gmsol_verif_harness::g9rt::set_clock(10, now);
+    let out = no_panic(move || -> std::result::Result<(u8, u32, u32), u32> {
+        let mut store: Box<Store> = Box::new(bytemuck::Zeroable::zeroed());
+        *store.get_amount_mut("oracle_max_age").unwrap() = 3600;
+        *store.get_amount_mut("oracle_max_timestamp_range").unwrap() = 3600;
+        *store.get_amount_mut("oracle_max_future_timestamp_excess").unwrap() = 10;
+        let mut v = PriceValidator::try_from(&*store).map_err(|e| core_num(&e))?;
+        let provider = PriceProviderKind::ChainlinkDataStreams;
+        let mut p = price;
+        if tc.is_price_adjustment_allowed() {
+            if let Some(f) = tc.get_feed_config(&provider).unwrap().max_deviation_factor() {
+                if let Some(q) = adjust(&f, &p, r.as_ref()) { p = q; }
+            }
+        }
+        v.verif_validate_one(&tc, &provider, now, 5, &p, r.as_ref()).map_err(|e| core_num(&e))?;
+        let sp = SmallPrices::verif_from_price(&p, false, true).map_err(|e| core_num(&e))?;
+        Ok((sp.min().decimal_multiplier, sp.min().value, sp.max().value))
+    });
+    let fo = if ratio == 0 { "None".to_string() } else { format!("(Some {})", ratio as u128 * 1_000_000_000_000) };
+    let (tag, rs) = match &out {
+        None => (format!("{kind}/panic").to_string(), "(Err 9)".to_string()),
+        Some(Ok((m, x, y))) => (format!("{kind}/accepted"), format!("(Ok ({m}, {x}, {y}))")),
+        Some(Err(c)) => (format!("{kind}/rejected{c}"), format!("(Err {c})")),
+    };
+    emit(&tag, &format!("Pipe {} {fo} {} {} {rs}", b(allow), pz(&price), odz(&r)));
+}
+
 fn main() {
     let a = args();
     silence_panics();
@@ -105,6 +148,23 @@ fn main() {
         // 5. computed deviation 0 (tiny reference): check skipped when adjustment is not allowed
         pipe_case(false, 1, 2, 18, 50_000_000, 50_000_000, 4_000_000_000);
         pipe_case(true, 1, 2, 18, 50_000_000, 50_000_000, 4_000_000_000);
+        // 6. (lead note) reference = mid off the tick grid, deviation below half a tick, both sides clamped:
+        //    the adjustment function itself returns an INVERTED price ...
+        {
+            use gmsol_utils::price::{Decimal, Price};
+            let d = |v: u32, m: u8| Decimal { value: v, decimal_multiplier: m };
+            for (factor, price, r) in [
+                (1_000_000_000_000_000u128, Price { min: d(99, 1), max: d(102, 1) }, None),
+                (1_000_000_000_000u128, Price { min: d(1_000_000, 8), max: d(1_000_003, 8) }, None),
+                (1_000_000_000_000_000u128, Price { min: d(9, 2), max: d(12, 2) }, Some(d(1055, 0))),
+            ] {
+                let out = adjust(&factor, &price, r.as_ref());
+                let rs = match &out { None => "(Some None)".to_string(), Some(p) => format!("(Some (Some {}))", pz(p)) };
+                emit("witness/adjust_inverted", &format!("Adjust {factor} {} {} {rs}", pz(&price), odz(&r)));
+                // ... and the rest of the pipeline (validate_one, then SmallPrices::from_price) rejects it
+                hook_pipeline(true, (factor / 1_000_000_000_000) as u32, price, r, "witness");
+            }
+        }
         finish();
         return;
     }
@@ -117,7 +177,7 @@ fn main() {
                 let (tag, rs) = match &out {
                     None => ("adjust/panic", "None".to_string()),
                     Some(None) => ("adjust/none", "(Some None)".to_string()),
-                    Some(Some(p)) => ("adjust/some", format!("(Some (Some {}))", pz(p))),
+                    Some(Some(p)) => (if p.min.decimal_multiplier == p.max.decimal_multiplier && p.min.value > p.max.value { "adjust/some_inverted" } else { "adjust/some" }, format!("(Some (Some {}))", pz(p))),
                 };
                 emit(tag, &format!("Adjust {factor} {} {} {rs}", pz(&price), odz(&r)));
             }
@@ -149,34 +209,7 @@ fn main() {
                 let (factor0, price, r) = gen_adjust(&mut rng);
                 let ratio: u32 = if rng.chance(1, 8) { 0 } else { ((factor0 / 1_000_000_000_000).clamp(1, u32::MAX as u128)) as u32 };
                 let allow = rng.chance(2, 3);
-                let tspec = TokenSpec { allow_adjust: allow, ratio, ..Default::default() };
-                let tc = token_config(&tspec, gmsol_verif_harness::g9rt::key(200));
-                let now = 1_700_000_000i64;
-                gmsol_verif_harness::g9rt::set_clock(10, now);
-                let out = no_panic(move || -> std::result::Result<(u8, u32, u32), u32> {
-                    let mut store: Box<Store> = Box::new(bytemuck::Zeroable::zeroed());
-                    *store.get_amount_mut("oracle_max_age").unwrap() = 3600;
-                    *store.get_amount_mut("oracle_max_timestamp_range").unwrap() = 3600;
-                    *store.get_amount_mut("oracle_max_future_timestamp_excess").unwrap() = 10;
-                    let mut v = PriceValidator::try_from(&*store).map_err(|e| core_num(&e))?;
-                    let provider = PriceProviderKind::ChainlinkDataStreams;
-                    let mut p = price;
-                    if tc.is_price_adjustment_allowed() {
-                        if let Some(f) = tc.get_feed_config(&provider).unwrap().max_deviation_factor() {
-                            if let Some(q) = adjust(&f, &p, r.as_ref()) { p = q; }
-                        }
-                    }
-                    v.verif_validate_one(&tc, &provider, now, 5, &p, r.as_ref()).map_err(|e| core_num(&e))?;
-                    let sp = SmallPrices::verif_from_price(&p, false, true).map_err(|e| core_num(&e))?;
-                    Ok((sp.min().decimal_multiplier, sp.min().value, sp.max().value))
-                });
-                let fo = if ratio == 0 { "None".to_string() } else { format!("(Some {})", ratio as u128 * 1_000_000_000_000) };
-                let (tag, rs) = match &out {
-                    None => ("pipe_hooks/panic".to_string(), "(Err 9)".to_string()),
-                    Some(Ok((m, x, y))) => ("pipe_hooks/accepted".to_string(), format!("(Ok ({m}, {x}, {y}))")),
-                    Some(Err(c)) => (format!("pipe_hooks/rejected{c}"), format!("(Err {c})")),
-                };
-                emit(&tag, &format!("Pipe {} {fo} {} {} {rs}", b(allow), pz(&price), odz(&r)));
+                hook_pipeline(allow, ratio, price, r, "pipe_hooks");
             }
         }
     }
